@@ -128,10 +128,36 @@ Theorem C17_watch_times_gap2_example :
 Proof. exact watch_times_gap2. Qed.
 Print Assumptions C17_watch_times_gap2_example.
 
+(* THE WHOLE STREAM, unbounded: plain configuration without threshold (every call recorded), both shapes, ANY
+   read= triggers (5 kinds, perf available or not), -W cpu and/or -W var, argument capture <= 684 bytes, EVERY
+   complete history of hooks that are at least 2 ns apart and nest within -D / --max-stack, every sequence of
+   observed values: the stream equals the hook-by-hook specification [hspec] - each hook contributes
+       entry of f:  <this hook's watch events, stamped -1 ns>  ENTRY f  READ_k..
+       exit of f:   <this hook's watch events, stamped -1 ns>  DIFF_k..  EXIT f
+   (only the thread's first hook has its watch events, stamped +1 ns, behind ENTRY f READ_k..); which watch
+   events a hook generates is save_watchpoint's decision (C17_watch_cpu_iff_changed, C17_watch_var_iff_changed,
+   MAX_EVENT counted since the last exit hook).  Hence: read right after entry, diff right before exit with the
+   differences, watch events at the hook that observed the change, every stamp inside the enclosing call. *)
+Theorem C17_stream_spec : forall gd ms sh rd pm wc wv es, wf gd ms es 0 0 -> endn es 0 = 0%nat ->
+  map oideal (xout (snd (xexec (xplainw 0 gd ms sh rd pm wc wv) es xstart))) = hspec (xplainw 0 gd ms sh rd pm wc wv) es.
+Proof. exact stream_spec. Qed.
+Print Assumptions C17_stream_spec.
+
+Theorem C17_stream_spec_example :
+  wf 16 16 sx_run 0 0 /\ endn sx_run 0 = 0%nat /\
+  hspec sx_cfg sx_run =
+  [OR (100, 0, 5, 0, 0); OE 100 EVENT_ID_READ_PAGE_FAULT [0; 5]; OE 101 C17_EVENT_ID_WATCH_CPU [1];
+   OE 101 C17_EVENT_ID_WATCH_CPU [2]; OR (102, 0, 5, 1, 256);
+   OE 103 C17_EVENT_ID_WATCH_VAR [8]; OR (104, 1, 5, 1, 256);
+   OE 199 C17_EVENT_ID_WATCH_CPU [3]; OE 199 C17_EVENT_ID_WATCH_VAR [7]; OE 200 EVENT_ID_DIFF_PAGE_FAULT [0; 4];
+   OR (200, 1, 5, 0, 0)].
+Proof. exact stream_spec_example. Qed.
+Print Assumptions C17_stream_spec_example.
+
 (* -W cpu at the level of the stream, bounded but exhaustive: for EVERY history of at most 4 calls (both
    shapes with hooks 2 ns apart, -pg also 3 ns), the chains of 5 and 6 nested calls, and EVERY change pattern
    of the observed cpu number, the stream equals the hook-by-hook specification [wspec] - an event iff the
-   value differs from the previous hook's (first always) and fewer than MAX_EVENT events are pending, stamped
+   value differs from the previous hook's (first always) and fewer than MAX_EVENT events are pending (a change that finds the queue full is reported by the next hook with room), stamped
    -1 ns and written in front of the hook's record (the first: +1 ns, behind the first ENTRY) - and every
    event lies in the closed interval of the enclosing recorded call. *)
 Theorem C17_watch_stream_small :
@@ -147,14 +173,26 @@ Theorem C17_watch_stream_small_domain :
 Proof. exact small_domain. Qed.
 Print Assumptions C17_watch_stream_small_domain.
 
-(* the stated limit: with MAX_EVENT events pending nothing is queued - and the observation is still
-   overwritten, so that change is never reported *)
-Theorem C17_watch_limit : forall C f pos o X, full (pend X) = true -> wp_cpu C = true ->
-  pend (x_watch C f pos o X) = pend X /\ w_cpu (x_watch C f pos o X) = o_cpu o.
+(* the MAX_EVENT limit: a hook that finds the queue full queues nothing and keeps the old observations (cpu
+   number, copy of the variable, global item), so the change is reported by the next hook with a free slot *)
+Theorem C17_watch_limit : forall C f pos o X, full (pend X) = true -> w_inited X = true ->
+  pend (x_watch C f pos o X) = pend X /\ w_cpu (x_watch C f pos o X) = w_cpu X /\
+  v_copy (x_watch C f pos o X) = v_copy X /\ g_init (x_watch C f pos o X) = g_init X /\
+  g_val (x_watch C f pos o X) = g_val X.
 Proof. exact watch_limit. Qed.
 Print Assumptions C17_watch_limit.
 
-(* -W var:NAME, one thread: for EVERY sequence of values, with the queue drained between the hooks, the
+(* before the repair the cpu number was remembered although no event could be stored: the change 1 -> 2 seen
+   with a full queue was never reported (second line), now the next hook reports it (first line) *)
+Theorem C17_watch_limit_legacy_refuted :
+  let X1 := x_watch cpu_cfg (dummy_frame 100) 0 (ocpu' 2) (full_x 1) in
+  let L1 := x_watch_cpu_legacy cpu_cfg (dummy_frame 100) 0 (ocpu' 2) (full_x 1) in
+  cpu_values (map a_ev (pend (x_watch cpu_cfg (dummy_frame 110) 0 (ocpu' 2) (set_pend X1 [])))) = [2] /\
+  cpu_values (map a_ev (pend (x_watch cpu_cfg (dummy_frame 110) 0 (ocpu' 2) (set_pend L1 [])))) = [].
+Proof. exact watch_limit_legacy_refuted. Qed.
+Print Assumptions C17_watch_limit_legacy_refuted.
+
+(* -W var:NAME (a variable of 1, 2, 4 or 8 bytes), one thread: for EVERY sequence of values, with the queue drained between the hooks, the
    events generated are exactly the changes of the value w.r.t. the thread's previous observation
    (v0 = the copy made at the thread's first hook) *)
 Theorem C17_watch_var_iff_changed : forall C, wp_var C = true -> forall l X v0,
@@ -167,6 +205,16 @@ Theorem C17_watch_var_example :
   var_values (wrun var_cfg [(100, ov 3); (110, ov 4); (120, ov 3)] var_x0) = [4; 3].
 Proof. exact var_watch_example. Qed.
 Print Assumptions C17_watch_var_example.
+
+(* FALSE across threads (known finding watch-var-once-per-process): the global watch item makes a value reported
+   once per process - threads 0 and 1 both observe 3 at entry and 4 at exit (multi-thread machine xexec_mt:
+   per-thread machines, shared item): thread 0 reports the change, thread 1, whose own previous observation
+   was 3, stays silent *)
+Theorem C17_watch_var_threads_refuted :
+  map (fun D => ids (xout (snd D))) (fst (xexec_mt var_cfg mt_run [] false 0)) =
+  [[(0, 100); (C17_EVENT_ID_WATCH_VAR, 199); (0, 200)]; [(0, 105); (0, 205)]].
+Proof. exact watch_var_threads_refuted. Qed.
+Print Assumptions C17_watch_var_threads_refuted.
 
 (* before aa8baff the thread's copy was never updated: 3 -> 4 -> 3 reported only the first change *)
 Theorem C17_watch_var_legacy_refuted :
